@@ -55,6 +55,7 @@ class Registry:
         self.parse_errors = []
         self.assoc = {}        # struct -> [(trait, arg, {name: type}, macro)]
         self.struct_generics = {}
+        self.struct_attrs = {}
         self.trait_generics = {}
         files = sorted(glob.glob(os.path.join(root, '**', '*.rs'), recursive=True))
         for f in files:
@@ -79,6 +80,7 @@ class Registry:
                 if it[0] == 'struct':
                     self.structs[it[1]] = (rel, it[2])
                     self.struct_generics[it[1]] = it[3] if len(it) > 3 else []
+                    self.struct_attrs[it[1]] = it[4] if len(it) > 4 else []
                 elif it[0] == 'impl':
                     trait, ty, fns = it[1], it[2], it[3]
                     ty0 = ty.split('<')[0].strip()
